@@ -5,8 +5,11 @@ pub mod c01;
 pub mod c02;
 pub mod c03;
 pub mod c04;
+pub mod c06;
 pub mod c10;
+pub mod c11;
 pub mod c15;
+pub mod c16;
 
 pub struct Monitor {
     pub meta: &'static PropMeta,
@@ -20,6 +23,10 @@ pub fn all() -> Vec<Monitor> {
         Monitor { meta: &c02::META, run: c02::run, replay: c02::replay },
         Monitor { meta: &c03::META, run: c03::run, replay: c03::replay },
         Monitor { meta: &c04::META, run: c04::run, replay: c04::replay },
+        Monitor { meta: &c06::META, run: c06::run, replay: c06::replay },
         Monitor { meta: &c10::META, run: c10::run, replay: c10::replay },
-        Monitor { meta: &c15::META, run: c15::run, replay: c15::replay }]
+        Monitor { meta: &c11::META, run: c11::run, replay: c11::replay },
+        Monitor { meta: &c15::META, run: c15::run, replay: c15::replay },
+        Monitor { meta: &c16::META, run: c16::run, replay: c16::replay },
+    ]
 }
